@@ -733,9 +733,103 @@ func c14RunStarve(m *vk.M, idx int, cfg c14DerivedCfg) (ok bool) {
 	return true
 }
 
+// hirate: bounded progress at high completion rates. With score' = floor(score*w)
+// and w < 1 for any positive spacing, every failed completion that comes later
+// than the previous completion of the same backend lowers an integer score by
+// at least 1, so an all-failing backend is unhealthy after at most 500 such
+// completions. The monitor allows c14HiRateBound (2x that). Completions at
+// exactly the same instant (w == 1) may legally leave the score unchanged and
+// are not counted.
+const c14HiRateBound = 1000
+
+func c14RunHiRate(m *vk.M, idx int, cfg c14DerivedCfg) (ok bool) {
+	desc := func() string { return fmt.Sprintf("case=%d;%s", idx, vk.JSON(cfg)) }
+	timex.VerifFakeClock(c14Start)
+	p, cidx, err := c14NewPicker(cfg.N, cfg.Seed)
+	if err != nil {
+		m.Inconclusive("case %d: %v", idx, err)
+		return false
+	}
+	mon := c14NewMon(m, p, cidx, desc)
+	defer mon.flush("hirate_")
+	sp := map[string]time.Duration{"100us": 100 * time.Microsecond, "1ms": time.Millisecond, "5ms": 5 * time.Millisecond, "burst4x1ms": time.Millisecond}[cfg.Variant]
+	burst := cfg.Variant == "burst4x1ms"
+	failing := false
+	u := p.conns[0]
+	var prevComp0 int64 = -1
+	posFails, zeroFails, calls := 0, 0, 0
+	// one sequential call; in burst mode only every 4th call moves the clock
+	one := func() bool {
+		calls++
+		lat, gap := sp/2, sp-sp/2
+		if burst && calls%4 != 0 {
+			lat, gap = 0, 0
+		}
+		pd, ok := mon.pick()
+		if !ok {
+			return false
+		}
+		timex.VerifAdvance(lat)
+		k := c14OK
+		if pd.conn == 0 && failing {
+			k = c14Fail1
+			if calls%3 == 0 {
+				k = c14Fail2
+			}
+		}
+		now := int64(timex.Now())
+		if !mon.complete(pd, k) {
+			return false
+		}
+		if pd.conn == 0 {
+			if failing {
+				if prevComp0 >= 0 && now > prevComp0 {
+					posFails++
+				} else {
+					zeroFails++
+				}
+			}
+			prevComp0 = now
+		}
+		timex.VerifAdvance(gap)
+		return true
+	}
+	for i := 0; i < 60*cfg.N; i++ { // warm-up: everybody succeeds, lag estimates are non-zero
+		if !one() {
+			return true
+		}
+	}
+	failing = true
+	start := c14Read(u).success
+	for steps := 0; ; steps++ {
+		s := c14Read(u).success
+		if s <= throttleSuccess && !u.healthy() {
+			break
+		}
+		if posFails >= c14HiRateBound {
+			mon.violate("C14:unhealthy:high-rate-failures-score-not-falling", "N=%d spacing %s: backend 0 failed every call since its score was %d: %d failed completions each later than its previous completion (plus %d at the same instant), yet success=%d healthy()=%v (threshold %d; truncating EWMA loses >= 1 per such completion)",
+				cfg.N, cfg.Variant, start, posFails, zeroFails, s, u.healthy(), throttleSuccess)
+			return true
+		}
+		if steps > 3000000 {
+			m.Inconclusive("case %d: backend 0 received only %d failing calls in %d picks", idx, posFails+zeroFails, steps)
+			return true
+		}
+		if !one() {
+			return true
+		}
+	}
+	m.Count("hirate_scenarios", 1)
+	m.Max("hirate_max_spaced_failures_until_unhealthy", int64(posFails))
+	if m.WantSample() && cfg.N == 3 {
+		m.Sample(map[string]any{"scenario": cfg, "score_before_failures": start, "spaced_failures_until_unhealthy": posFails, "same_instant_failures": zeroFails, "score_now": c14Read(u).success})
+	}
+	return true
+}
+
 func TestVerifC14Derived(t *testing.T) {
 	logx.Disable()
-	m := vk.New(t, "C14", fmt.Sprintf("sequential sustained traffic on the virtual clock. share: after a 2 s all-success warm-up backend 0 fails every call (Unavailable/DeadlineExceeded), others succeed; once its completions span 0.8*decayTime it must have success<=%d; then over %d picks (10ms apart, N>=4: equal latency or fast-failing) its count < %.1f x the smallest healthy count (N=3: fewer than each healthy one); for N<=8 no backend goes unpicked for %v. starve: backend 0 25x slower, 2000 picks/virtual s, N in 2..8: every backend picked at least once in every %v of virtual time; after a 2 s all-success warm-up; fail-recover variant: unhealthy after 15 s of failures, success>%d again after 40 s of successes", throttleSuccess, c14SharePicks, c14ShareFactor, c14ShareWindow, c14StarveWindow, throttleSuccess))
+	m := vk.New(t, "C14", fmt.Sprintf("sequential sustained traffic on the virtual clock. share: after a 2 s all-success warm-up backend 0 fails every call (Unavailable/DeadlineExceeded), others succeed; once its completions span 0.8*decayTime it must have success<=%d; then over %d picks (10ms apart, N>=4: equal latency or fast-failing) its count < %.1f x the smallest healthy count (N=3: fewer than each healthy one); for N<=8 no backend goes unpicked for %v. hirate: N in {1,2,3,5}, one call per 100us/1ms/5ms (or bursts of 4 calls per instant every 1ms), backend 0 fails every call after a warm-up: unhealthy after at most 1000 failed completions that are each later than its previous completion. starve: backend 0 25x slower, 2000 picks/virtual s, N in 2..8: every backend picked at least once in every %v of virtual time; after a 2 s all-success warm-up; fail-recover variant: unhealthy after 15 s of failures, success>%d again after 40 s of successes", throttleSuccess, c14SharePicks, c14ShareFactor, c14ShareWindow, c14StarveWindow, throttleSuccess))
 	defer m.Done()
 	defer timex.VerifRealClock()
 	reps := vk.N(3, 40)
@@ -747,6 +841,11 @@ func TestVerifC14Derived(t *testing.T) {
 			cfgs = append(cfgs, c14DerivedCfg{Kind: "share", N: n, Variant: "equal"})
 			if n >= 4 {
 				cfgs = append(cfgs, c14DerivedCfg{Kind: "share", N: n, Variant: "fastfail"})
+			}
+		}
+		for _, n := range []int{1, 2, 3, 5} {
+			for _, v := range []string{"100us", "1ms", "5ms", "burst4x1ms"} {
+				cfgs = append(cfgs, c14DerivedCfg{Kind: "hirate", N: n, Variant: v})
 			}
 		}
 		for _, n := range []int{2, 3, 4, 5, 8} {
@@ -762,9 +861,12 @@ func TestVerifC14Derived(t *testing.T) {
 		}
 		m.Current(fmt.Sprintf("case=%d;%s", idx, vk.JSON(cfg)))
 		var ok bool
-		if cfg.Kind == "share" {
+		switch cfg.Kind {
+		case "share":
 			ok = c14RunShare(m, idx, cfg)
-		} else {
+		case "hirate":
+			ok = c14RunHiRate(m, idx, cfg)
+		default:
 			ok = c14RunStarve(m, idx, cfg)
 		}
 		if !ok {
